@@ -186,8 +186,34 @@ def num_expr(path, argt):
     return "x.%s(%s)" % (FMT_JS.get(path, path), arg_src(argt))
 
 
+def _fl(x):
+    """The double a host number stands for (a host integer beyond 2^53 is the nearest double, or an infinity)."""
+    return P.int_to_double(x) if isinstance(x, int) and not isinstance(x, bool) else float(x)
+
+
+def host_big_ints(rnd, n_random):
+    """Host integers that no double holds exactly or that lie beyond 2^53: what Context.set / an exposed callable hands in."""
+    out = []
+    for k in list(range(53, 72)) + [100, 127, 128, 1000, 1023, 1024, 1025, 1100]:
+        out += [2 ** k, 2 ** k + 1, 2 ** k - 1, -(2 ** k) - 1]
+    for k in list(range(15, 26)) + [100, 308, 309, 400]:
+        out += [10 ** k, 10 ** k + 1, 10 ** k - 1, -(10 ** k)]
+    out += [9007199254740993, 9007199254740995, 18446744073709551615, 18446744073709551616, 123456789012345678901234567890, (2 ** 53 + 1) * 1024,
+            179769313486231570814527423731704356798070567525844996598917476803157260780028538760589558632766878171540458953514382464234321326889464182768467546703537516986049910576551282076245490090389328944075868508455133942304583236903222948165808559332123348274797826204144723168738177180919299881250404026184124858368,
+            179769313486231580793728971405303415079934132710037826936173778980444968292764750946649017977587207096330286416692887910946555547851940402630657488671505820681908902000708383676273854845817711531764475730270069855571366959622842914819860834936475292719074168444365510704342711559699508093042880177904174497791]
+    for _ in range(n_random):
+        d = rnd.randint(16, 40)
+        out.append(rnd.choice([1, -1]) * rnd.randrange(10 ** (d - 1), 10 ** d))
+    seen, res = set(), []
+    for n in out:
+        if n not in seen:
+            seen.add(n)
+            res.append(["i", n])
+    return res
+
+
 def num_expected(path, argt, x):
-    x = float(x)
+    x = _fl(x)
     if path in STR_PATHS:
         if path == "json" and (x != x or abs(x) == INF):
             return ("s", "null")
@@ -229,7 +255,7 @@ def judge_num(path, argt, xt, raw):
     if act[0] == "throw":
         return False, list(exp[:2]), act, "throws %s want text" % act[1]
     if exp[0] == "pred":
-        if act[0] == "s" and NF.radix_text_ok(act[1], exp[1], float(x)):
+        if act[0] == "s" and NF.radix_text_ok(act[1], exp[1], _fl(x)):
             return True, None, None, ""
         return False, ["radix text within 1 ulp", exp[1]], act, "radix text"
     if act == ["s", exp[1]]:
@@ -248,7 +274,7 @@ def run_num_task(task):
         exprs = [num_expr(p, a) for p, a in chunk]
         rows = eval_cells({"X": xs}, KEY_PRELUDE, "var x = X[i];", exprs, len(xs))
         for xt, x, row in zip(xts, xs, rows):
-            nt = G.nontrivial_double(float(x))
+            nt = G.nontrivial_double(_fl(x))
             for (path, argt), raw in zip(chunk, row):
                 acc.n += 1
                 sub = "str" if path in STR_PATHS else "fmt"
@@ -560,7 +586,11 @@ def build_tasks(chk):
     rdt = with_int_reps(rd)
     for ch in pool.chunks(rdt, 150):
         tasks.append(("num", "rand", ch, str_calls + rnd.sample(all_fmt, 8), skip_json))
-    chk.extra["doubles"] = {"boundary": len(bd), "random": nrand, "core": len(G.core_doubles())}
+    # --- host integers beyond 2^53 (handed in with Context.set): every string path + every formatting call
+    hbi = host_big_ints(rnd, 150 if quick else 5000)
+    for ch in pool.chunks(hbi, 60):
+        tasks.append(("num", "grid", ch, str_calls + (rnd.sample(all_fmt, 12) if quick else all_fmt), skip_json))
+    chk.extra["doubles"] = {"boundary": len(bd), "random": nrand, "core": len(G.core_doubles()), "host_big_ints": len(hbi)}
 
     # --- parse
     bs = G.boundary_strings()
